@@ -28,11 +28,11 @@ SPEC = {
              "(tokens handed out minus Shoot calls) == lines having tag 'discarded' AND net code 777, no line has only one of the two, every "
              "fired request has exactly one line with its own tag, id, net code 0 and proto code, no other lines; discard off: no token "
              "unfired. Non-trivial = some instance discarded, fired, and discarded again (or, discard off, fired at all)."),
-    "floors": {"TestTiming/late_1_2s": 0.1, "TestTiming/late_2_3s": 0.1, "TestTiming/late_ge_3s": 0.1,
-               "TestTiming/discard_off": 0.1, "TestTiming/instances_gt_1": 0.3, "TestTiming/discards_seen": 0.2, "TestTiming/token_waited_for_right_after_a_discard": 0.08,
-               "TestNoEarlyShotDense/shots_within_1ms_after_their_time": 0.4,
-               "TestDiscardedInPhout/phout_discard_then_shot_then_discard_on_one_instance": 0.5,
-               "TestDiscardedInPhout/phout_discarded_lines_seen": 0.6, "TestDiscardedInPhout/phout_discard_off": 0.05,
+    "floors": {"TestTiming/late_1_2s": 0.1, "TestTiming/late_2_3s": 0.1, "TestTiming/late_ge_3s": 0.07,
+               "TestTiming/discard_off": 0.066, "TestTiming/instances_gt_1": 0.3, "TestTiming/discards_seen": 0.2, "TestTiming/token_waited_for_right_after_a_discard": 0.08,
+               "TestNoEarlyShotDense/shots_within_1ms_after_their_time": 0.3,
+               "TestDiscardedInPhout/phout_discard_then_shot_then_discard_on_one_instance": 0.33,
+               "TestDiscardedInPhout/phout_discarded_lines_seen": 0.34, "TestDiscardedInPhout/phout_discard_off": 0.05,
                "TestDiscardedInPhout/phout_instances_gt_1": 0.3, "TestDiscardedInPhout/phout_ids_on": 0.25},
     "manifest": {
         "technique": "property-based testing (rapid generators, batch-parallel, real time) with an interval oracle over measured instants",
